@@ -176,6 +176,56 @@ check('C19', 'model_checking',
       'replayed through the real command and judged by TLC',
       'tlc-data')
 
+check('C05', 'model_checking',
+      'DecoderContract.tla replays the event log of one reused decoder '
+      'object per configuration (every decoder x every code it declares - '
+      'all 16 classes for BP-OSD/MBP, plain and deformed/non-CSS - x sizes '
+      'incl. non-cubic x noise directions/deformations x rates): '
+      'construction, then zero / weight-1 / random / all valid syndromes; '
+      'TLC judges every event: no exception, binary length-2n result, '
+      'complete decoders reproduce the syndrome (per sector for '
+      'error_type), zero syndrome -> zero correction.',
+      'DESIGN.md 4/C05',
+      'Trusted: TLC; PyMatching/ldpc are observed, not trusted. Two recorded '
+      'findings (union-find on side-2 tori; RotatedSweepMatch on non-CSS '
+      'RotatedToric3D) print KNOWN-FINDING.',
+      'TLA+ contract state machine (DecoderContract.tla) + code->spec trace '
+      'validation of decoder event logs by TLC',
+      'tlc-data')
+
+check('C06', 'model_checking',
+      'Call histories derived from the specification\'s domain (an Eulerian '
+      'sequence containing every ordered pair of the valid syndromes of a '
+      'tiny code, incl. zero and sector-wise zero syndromes; random long '
+      'histories with repeats on every code class) are replayed on one '
+      'reused decoder and each distinct syndrome on a fresh one; '
+      'DecoderContract.tla\'s memo history variable makes TLC reject any '
+      'decode whose result differs from an earlier result for the same '
+      'syndrome (any object), and any call that modifies the caller\'s '
+      'syndrome or the noise model\'s probability tables.',
+      'DESIGN.md 4/C06',
+      'Trusted: TLC; which decoders are deterministic (all but the sweep '
+      'decoders).',
+      'TLA+ memo-history contract (DecoderContract.tla) + spec-generated '
+      'call histories replayed and validated by TLC',
+      'tlc-data')
+
+check('C10', 'model_checking',
+      'Sweep.tla defines what a flip does (toggle the anticommuting faces; '
+      'toggle the edge in the correction) and the invariants Tracks / '
+      'CleanExit; Sweep_Model.tla explores the automaton on Toric3D 2x2x2 '
+      'data (toggle holds, assign refuted).  Every edge of every home '
+      'lattice is probed through flip_edge (geometry) and every sweep of '
+      'every decode over single/pair/random Z errors and tie-break seeds is '
+      'logged by wrapping sweep_move/flip_edge and replayed through '
+      'Sweep.tla by TLC (Sweep_Trace.tla), each state judged.',
+      'DESIGN.md 4/C10',
+      'Trusted: TLC; wrapping of instance methods. Recorded finding: '
+      'RotatedSweepDecoder3D on RotatedToric3DCode (geometry + automaton).',
+      'TLA+ automaton spec (Sweep.tla) model-checked + code->spec validation '
+      'of every logged sweep step and every edge by TLC',
+      'tlc-data')
+
 
 def build():
     checks = []
